@@ -32,7 +32,6 @@ func VerifPoisonPool(n int) {
 		unk = protowire.AppendTag(unk, 1001, protowire.BytesType)
 		unk = protowire.AppendString(unk, "poison")
 		m.ProtoReflect().SetUnknown(unk)
-		m.skipDelimiter = i%2 == 1
 		protoMessagePool.Put(m)
 	}
 }
